@@ -581,7 +581,7 @@ template<typename T>
 [[nodiscard]]
 SUPPORT_INLINE constexpr bool has_at_least_2_bits_set(const T& value) noexcept {
   auto v = as_basic_uint(value);
-  return !(v & (v - 1u));
+  return (v & (v - 1u)) != 0;
 }
 
 // Support - Bit Utilities
